@@ -141,6 +141,33 @@ def order_class(v, bps):
     return (below, v in bps)
 
 
+def axioms_ok(cell, env):
+    """Facts about the named uninterpreted functions that a witness must respect: the geodesic distance between two equal
+    positions is zero (and only then).  A cell whose witness contradicts them is infeasible, not a counter-example."""
+    for q, r in cell.items():
+        g = q[1] if q[0] == 'abs' else q
+        if g[0] == 'fn' and g[1] in ('trunc', 'floor', 'ceil', 'rint') and len(g[2]) == 1:
+            inner = g[2][0]
+            for q2, r2 in cell.items():
+                if q2 == inner or (q[0] == 'abs' and q2 == ('abs', inner)) or (q2[0] == 'abs' and q2[1] == inner and q[0] == 'abs'):
+                    lo, hi = {'trunc': (-1, 1), 'floor': (-1, 0), 'ceil': (0, 1), 'rint': (Fr(-1, 2), Fr(1, 2))}[g[1]]
+                    if not (lo <= r - r2 <= hi) or (g[1] == 'trunc' and abs(r) > abs(r2)):
+                        return False
+    if env is None:
+        return True
+    for q, r in cell.items():
+        g = q[1] if q[0] == 'abs' else q
+        if g[0] == 'fn' and g[1] == 'geodist' and len(g[2]) == 4:
+            try:
+                a = [X.eval_num(x, env) for x in g[2]]
+            except Exception:
+                continue
+            same = a[0] == a[2] and a[1] == a[3]
+            if same != (r == 0):
+                return False
+    return True
+
+
 def realise(cell, rng, budget=1500, breaks=None):
     """breaks: dict q -> breakpoints.  With breaks a cell is realised by data that puts every quantity in the same
     *order class* (same side of every breakpoint), which is all a cell means; without, the exact ranks are required."""
@@ -294,7 +321,7 @@ def compare_position(flag_expr, spec_quantities, allowed_fn, rng, result, label,
             continue
         if not got <= set(want):
             env = realise(cell, rng, breaks=qs)
-            if env is None and all(numeric_evaluable(q) for q in order):
+            if (env is None and all(numeric_evaluable(q) for q in order)) or not axioms_ok(cell, env):
                 result.unrealised += 1
                 continue
             if env is None:
@@ -499,7 +526,7 @@ def compare_pair(expr_a, expr_b, relation, rng, result, label, max_cells=20000):
         result.distinct.add((frozenset(fa), frozenset(fb), tuple(combo)))
         if not relation(fa, fb):
             env = realise(cell, rng, breaks=qs)
-            if env is None and all(numeric_evaluable(q) for q in order):
+            if (env is None and all(numeric_evaluable(q) for q in order)) or not axioms_ok(cell, env):
                 result.unrealised += 1
                 continue
             if env is None and any(not numeric_evaluable(q) and not identity_evaluable(q) and not (q[0] == 'fn' and q[1] == 'geodist')
